@@ -21,7 +21,11 @@
 (*   policy  "fp" | "edf" | "fifo"                                         *)
 (*   tasks   sequence of                                                   *)
 (*     arr   [k |-> "sporadic", T, J]  or  [k |-> "dmin", d |-> <<..>>]    *)
-(*     C     WCET                                                          *)
+(*     C     WCET (of a single job)                                        *)
+(*     w     optional cumulative-cost prefix (wcet::Curve): any n          *)
+(*           consecutive jobs of the task cost at most w[n] in total,      *)
+(*           n <= Len(w); << >> = plain scalar WCET.  The cost automaton   *)
+(*           keeps the costs of the last Len(w)-1 completed jobs (hist).   *)
 (*     segs  segment bounds (sum = C): <<C>> = non-preemptive,             *)
 (*           <<1,..,1>> = fully preemptive, anything else = limited        *)
 (*           preemptive;  fl = max length of a floating NP region (0 = the *)
@@ -48,13 +52,31 @@ VARIABLES cfg,      \* which system of the batch
           npl,      \* remaining length of the open floating non-preemptive region
           ptr,      \* zero-time releases happen in non-decreasing task order within an instant
           sup,      \* reservation state <<phase, budget left>> (<<0,0>> for a dedicated processor)
-          fin       \* <<task, response time>> of the job completed in the last tick, else <<0,0>>
-vars == <<cfg, arr, q, run, npl, ptr, sup, fin>>
+          fin,      \* <<task, response time>> of the job completed in the last tick, else <<0,0>>
+          hist      \* hist[i]: costs of the most recent completed jobs of task i (most recent first), see w
+vars == <<cfg, arr, q, run, npl, ptr, sup, fin, hist>>
 
 S == Sys[cfg]
 N == Len(S.tasks)
 T(i) == S.tasks[i]
 Claimed(i) == T(i).R >= 0
+HasCurve(i) == "w" \in DOMAIN T(i) /\ Len(T(i).w) > 0
+
+RECURSIVE SumFirst(_, _)
+SumFirst(s, n) == IF n = 0 THEN 0 ELSE s[n] + SumFirst(s, n - 1)
+\* cost automaton: the largest cost the next job of task i may have, given the costs of its predecessors
+\* (every window of m <= Len(w) consecutive jobs, ending with the next job, must respect w[m])
+AllowedCost(i) ==
+    IF ~HasCurve(i) THEN T(i).C
+    ELSE LET w == T(i).w
+             h == hist[i]
+             lim(m) == w[m] - SumFirst(h, m - 1)
+             ms == 1..(IF Len(h) + 1 <= Len(w) THEN Len(h) + 1 ELSE Len(w))
+         IN CHOOSE x \in {lim(m) : m \in ms} : \A y \in {lim(m) : m \in ms} : x <= y
+Record(i, cost) ==
+    IF ~HasCurve(i) THEN hist[i]
+    ELSE LET h2 == <<cost>> \o hist[i]
+         IN IF Len(h2) > Len(T(i).w) - 1 THEN SubSeq(h2, 1, Len(T(i).w) - 1) ELSE h2
 
 MinOf(a, b) == IF a <= b THEN a ELSE b
 MaxOf(a, b) == IF a >= b THEN a ELSE b
@@ -117,6 +139,7 @@ Init ==
     /\ ptr = 1
     /\ sup \in SupInitSet(S.supply)
     /\ fin = <<0, 0>>
+    /\ hist = [i \in 1..N |-> << >>]      \* no predecessors: the least constrained start of a cost sequence
 
 (***************************************************************************)
 (* Release(i): zero-time action, legal iff the arrival automaton allows.   *)
@@ -129,7 +152,7 @@ Release(i) ==
     /\ q' = [q EXCEPT ![i] = Append(q[i], <<0, 1, 0>>)]
     /\ ptr' = i
     /\ fin' = <<0, 0>>
-    /\ UNCHANGED <<cfg, run, npl, sup>>
+    /\ UNCHANGED <<cfg, run, npl, sup, hist>>
 
 (***************************************************************************)
 (* Who may be scheduled                                                    *)
@@ -166,12 +189,12 @@ Outcomes(i) ==
        THEN \* floating non-preemptive regions; k counts executed units (k - 1 done before this tick)
             LET done == k                \* executed units including this one
                 stay(n) == <<<<job[1], k + 1, 0>>, IF n > 0 THEN i ELSE 0, n>>
-            IN (IF done = T(i).C THEN {} ELSE
+            IN (IF done >= AllowedCost(i) THEN {} ELSE
                    IF npl > 0 THEN {stay(npl - 1)}
                    ELSE {stay(n) : n \in 0..(T(i).fl - 1)})   \* this unit opens a region of length n+1
                \cup {<<Done, 0, 0>>}                        \* any execution time in 1..C
        ELSE \* segmented: the current segment ends now (always allowed once a unit ran) ...
-            LET endseg == IF k = m THEN {<<Done, 0, 0>>}
+            LET endseg == IF k = m \/ (AllOnes(segs) /\ k >= AllowedCost(i)) THEN {<<Done, 0, 0>>}
                           ELSE {<<<<job[1], k + 1, 0>>, 0, 0>>}
                                  \cup (IF AllOnes(segs) THEN {<<Done, 0, 0>>} ELSE {})
                 \* ... or continues, non-preemptively, if its bound allows
@@ -192,10 +215,15 @@ Tick ==
                               ELSE AgeQueue(j, q[j])]
                    /\ run' = o[2]
                    /\ npl' = o[3]
+                   \* executed units of the completing job: unit segments / floating: job[2]; one segment: job[3] + 1
+                   /\ hist' = IF o[1] = Done
+                              THEN [hist EXCEPT ![i] = Record(i, IF T(i).fl > 0 \/ AllOnes(T(i).segs)
+                                                                 THEN q[i][1][2] ELSE q[i][1][3] + 1)]
+                              ELSE hist
                    /\ fin' = IF TrackFin /\ o[1] = Done /\ Claimed(i)
                              THEN <<i, HeadAge(i) + 1>> ELSE <<0, 0>>
             ELSE /\ q' = [j \in 1..N |-> AgeQueue(j, q[j])]
-                 /\ UNCHANGED <<run, npl>>
+                 /\ UNCHANGED <<run, npl, hist>>
                  /\ fin' = <<0, 0>>
     /\ arr' = [i \in 1..N |-> ArrTick(T(i).arr, arr[i])]
     /\ ptr' = 1
